@@ -563,6 +563,78 @@ func runC04(c *Ctx) {
 		}
 		c.R.Count("cross_process_comparisons", int64(len(sel)))
 	}
+	c04cliRepeat(c, tmp)
+}
+
+// c04cliRepeat: the same `gobl build` command line, with values merged from
+// several flags, files and a template, run many times in fresh processes must
+// print the same document and digest every time.
+func c04cliRepeat(c *Ctx, tmp string) {
+	gbin := filepath.Join(ev.Root(), "bin", "gobl")
+	if _, err := os.Stat(gbin); err != nil {
+		c.R.Inconclusive("no-cli-binary")
+		return
+	}
+	b, err := os.ReadFile(filepath.Join(ev.Repo(), "examples/es/out/invoice-es-es.json"))
+	if err != nil {
+		return
+	}
+	doc, _ := gx.DocJSON(b)
+	docFile := filepath.Join(tmp, "cli-doc.json")
+	envFile := filepath.Join(tmp, "cli-env.json")
+	custFile := filepath.Join(tmp, "cli-customer.yaml")
+	tplFile := filepath.Join(tmp, "cli-template.yaml")
+	_ = os.WriteFile(docFile, doc, 0o644)
+	_ = os.WriteFile(envFile, b, 0o644)
+	_ = os.WriteFile(custFile, []byte("name: From File\ntax_id:\n  country: ES\n  code: B98602642\n"), 0o644)
+	_ = os.WriteFile(tplFile, []byte("series: TPL\nnotes:\n  - key: general\n    text: from the template\nsupplier:\n  alias: Template Alias\n"), 0o644)
+	cases := [][]string{
+		{"build", "--set", "supplier={name: Whole, tax_id: {country: ES, code: B98602642}}", "--set", "supplier.name=Leaf", docFile},
+		{"build", "--set", "supplier.name=Leaf", "--set", "supplier.alias=Alias", "--set", "supplier={name: Whole, tax_id: {country: ES, code: B98602642}}", "--set", "supplier.tax_id.code=A58818501", docFile},
+		{"build", "--set", "doc.supplier={name: Whole, tax_id: {country: ES, code: B98602642}}", "--set", "doc.supplier.name=Leaf", "--set", "doc.series=S1", "--set", "doc={series: S2}", envFile},
+		{"build", "--set-string", "series=0012", "--set", "series=13", "--set-file", "customer=" + custFile, "--set", "customer.name=From Flag", docFile},
+		{"build", "-T", tplFile, "--set", "series=FLAG", "--set-string", "supplier.alias=Flag Alias", docFile},
+		{"build", "--set", "a1.b=1", "--set", "a1.c=2", "--set", "a1={d: 3}", "--set", "meta={k1: v1}", "--set", "meta.k2=v2", "--set", "meta.k1=other", docFile},
+		{"sign", "--set", "doc.supplier.name=Leaf", "--set", "doc.supplier={name: Whole, tax_id: {country: ES, code: B98602642}}", "-k", filepath.Join(tmp, "cli-key.jwk"), envFile},
+	}
+	if kb, err := json.Marshal(c04key); err == nil {
+		_ = os.WriteFile(filepath.Join(tmp, "cli-key.jwk"), kb, 0o600)
+	}
+	const repeats = 32
+	type res struct{ out string }
+	for ci, args := range cases {
+		outs := make([]string, repeats)
+		c.Parallel(repeats, func(r int) {
+			cmd := exec.Command(gbin, args...)
+			var so, se bytes.Buffer
+			cmd.Stdout, cmd.Stderr = &so, &se
+			err := runWithTimeout(cmd, 60*time.Second)
+			o := so.Bytes()
+			if err != nil {
+				outs[r] = "error:" + strings.TrimSpace(se.String())
+				return
+			}
+			if n, perr := jmut.Parse(o); perr == nil && n.Get("doc") != nil {
+				outs[r] = c04hash(o)
+			} else {
+				outs[r] = string(o)
+			}
+		})
+		c.R.Count("cli_repeated_builds", repeats)
+		c.R.Case(true, ev.Hash("cli-repeat", fmt.Sprint(ci)))
+		distinct := map[string]int{}
+		for _, o := range outs {
+			distinct[o]++
+		}
+		if len(distinct) > 1 {
+			var shown []string
+			for o, n := range distinct {
+				shown = append(shown, fmt.Sprintf("%d× %s", n, trunc(o)))
+			}
+			sort.Strings(shown)
+			c.R.Fail("nondeterministic:cli-build", fmt.Sprintf("`gobl %s` printed %d different results in %d identical runs: %s", strings.Join(args, " "), len(distinct), repeats, strings.Join(shown, " | ")), map[string]any{"args": args})
+		}
+	}
 }
 
 var c04key = dsig.NewES256Key()
